@@ -660,3 +660,43 @@ def none_facts_transfer(node: Node, facts: frozenset) -> Optional[frozenset]:
             if isinstance(nm, ast.Name):
                 f = {x for x in f if x[1] != nm.id}
     return frozenset(f)
+
+
+_NEG = {ast.NotEq: ast.Eq, ast.IsNot: ast.Is, ast.NotIn: ast.In}
+
+
+def _canon_test(e):
+    """(canonical positive text, polarity) of a test: strips `not`, turns != / is not / not in into their positive forms"""
+    pol = True
+    while isinstance(e, ast.UnaryOp) and isinstance(e.op, ast.Not):
+        e, pol = e.operand, not pol
+    if isinstance(e, ast.Compare) and len(e.ops) == 1 and type(e.ops[0]) in _NEG:
+        e2 = ast.Compare(left=e.left, ops=[_NEG[type(e.ops[0])]()], comparators=e.comparators)
+        return norm(e2), not pol
+    return norm(e), pol
+
+
+def assume_truth(x: Node, expr: str) -> Optional[bool]:
+    """If CFG node `x` is an assume node about `expr` (written in any polarity: `E`, `not E`, `a != b` for `a == b`, ...),
+    the truth value of `expr` on the outgoing side; None when the node is about something else.  Conjunctions known true and
+    disjunctions known false are looked into."""
+    if x.kind != "assume":
+        return None
+    want, wpol = _canon_test(ast.parse(expr, mode="eval").body)
+
+    def look(t, holds: bool):
+        if isinstance(t, ast.UnaryOp) and isinstance(t.op, ast.Not):
+            return look(t.operand, not holds)
+        if isinstance(t, ast.BoolOp):
+            if (isinstance(t.op, ast.And) and holds) or (isinstance(t.op, ast.Or) and not holds):
+                for v in t.values:
+                    r = look(v, holds)
+                    if r is not None:
+                        return r
+            return None
+        got, gpol = _canon_test(t)
+        if got == want:
+            return (holds == gpol) == wpol
+        return None
+
+    return look(x.ast, bool(x.taken))
